@@ -4,6 +4,8 @@
 # /verif's sources under /dev/shm (own build directory), so neither /repo nor /verif's build is touched.
 #   ./selftest_mutants.sh [name-filter]      results: mutants/RESULTS.txt
 set -u
+exec 9>/dev/shm/selftest-mutants.lock
+flock -n 9 || { echo "another selftest_mutants.sh is running"; exit 2; }
 SRC="$(cd "$(dirname "$0")" && pwd)"
 WT=/dev/shm/mutant-repo
 VC=/dev/shm/mutant-verif
@@ -25,11 +27,25 @@ run_one() { # name prop patch expected
   local s=$(date +%s)
   local out; out=$(cd "$VC" && VERIF_REPO="$WT" VERIF_HANG_MS=4000 ./check "$prop" quick 2>&1); local rc=$?
   local e=$(date +%s)
+  echo "$out" > /dev/shm/mutant-last-$(basename $name).log
   local keys; keys=$(echo "$out" | grep -E "^violation check=" | sed -E 's/^violation check=([^ ]+).*/\1/' | sort -u | tr '\n' ',' )
   local verdict="MISSED"
   [ $rc -eq 1 ] && echo "$out" | grep -q "^VIOLATION property=$prop" && verdict="CAUGHT"
   [ $rc -eq 2 ] && verdict="HARNESS-ERROR"
-  echo "$name $prop $verdict rc=$rc $((e-s))s checks=[$keys] expected=$expected" | tee -a "$RES.tmp"
+  local others=""
+  if [ "$verdict" = "MISSED" ]; then
+    # which other registered checks notice this change?
+    for q in $(python3 -c "import json; print(' '.join(c['property_id'] for c in json.load(open('$VC/MANIFEST.json'))['checks']))"); do
+      [ "$q" = "$prop" ] && continue
+      local o2; o2=$(cd "$VC" && VERIF_REPO="$WT" VERIF_HANG_MS=4000 ./check "$q" quick 2>&1); local r2=$?
+      if [ $r2 -eq 1 ] && echo "$o2" | grep -q "^VIOLATION property=$q"; then
+        local k2; k2=$(echo "$o2" | grep -E "^violation check=" | sed -E 's/^violation check=([^ ]+).*/\1/' | sort -u | head -3 | tr '\n' ',')
+        others="$others $q[$k2]"
+      fi
+    done
+    [ -n "$others" ] && verdict="CAUGHT-BY-OTHER"
+  fi
+  echo "$name $prop $verdict rc=$rc $((e-s))s checks=[$keys] expected=$expected others=[$others ]" | tee -a "$RES.tmp"
   git -C "$WT" checkout -q -- . ; git -C "$WT" clean -fdq
 }
 python3 - "$SRC" "$FILTER" <<'PY' > /dev/shm/mutant-list.txt
@@ -44,7 +60,22 @@ for d in sorted(glob.glob(os.path.join(src,'seeded/*/'))):
         if flt in name: print(name,m['property'],os.path.join(d,'patch.diff'),m.get('caught_by','-'))
 PY
 while read -r name prop patch expected; do run_one "$name" "$prop" "$patch" "$expected"; done < /dev/shm/mutant-list.txt
+# property-preserving refactorings: every check must stay silent
+if [ -z "$FILTER" ] || [ "$FILTER" = "equivalent" ]; then
+  for patch in "$SRC"/mutants/equivalent/*.patch; do
+    name="equivalent/$(basename "$patch" .patch)"
+    git -C "$WT" checkout -q -- . ; git -C "$WT" clean -fdq
+    git -C "$WT" apply "$patch" 2>/dev/null || { echo "$name APPLY-FAILED" | tee -a "$RES.tmp"; continue; }
+    alarms=""
+    for q in $(python3 -c "import json; print(' '.join(c['property_id'] for c in json.load(open('$VC/MANIFEST.json'))['checks']))"); do
+      o2=$(cd "$VC" && VERIF_REPO="$WT" ./check "$q" quick 2>&1); r2=$?
+      [ $r2 -ne 0 ] && alarms="$alarms $q(rc=$r2:$(echo "$o2" | grep -E "^violation check=" | head -1 | cut -c1-160))"
+    done
+    if [ -z "$alarms" ]; then echo "$name SILENT (all checks pass)" | tee -a "$RES.tmp"; else echo "$name FALSE-ALARM $alarms" | tee -a "$RES.tmp"; fi
+    git -C "$WT" checkout -q -- . ; git -C "$WT" clean -fdq
+  done
+fi
 if [ -z "$FILTER" ]; then mv "$RES.tmp" "$RES"; else cat "$RES.tmp" >> "$RES"; rm -f "$RES.tmp"; fi
 git -C /repo worktree remove --force "$WT"
 rm -rf "$VC" /dev/shm/mutant-list.txt
-echo "done: $(grep -c CAUGHT "$RES") caught, $(grep -c MISSED "$RES") missed"
+echo "done: $(grep -c " CAUGHT " "$RES") caught by their own check, $(grep -c "CAUGHT-BY-OTHER" "$RES") by another check, $(grep -c " MISSED " "$RES") missed"
